@@ -120,6 +120,9 @@ impl Coster for HCoster {
     }
 }
 
+/// consultations answered so far by the stateful validator (one process per run)
+pub static TOGGLE_CALLS: std::sync::atomic::AtomicU64 = std::sync::atomic::AtomicU64::new(0);
+
 pub struct HValidator(pub Validator);
 impl UpdateValidator for HValidator {
     type Value = Val;
@@ -127,6 +130,7 @@ impl UpdateValidator for HValidator {
         let ok = match self.0 {
             Validator::Always => true,
             Validator::Mod { m, r } => (prev.id + curr.id) % m != r,
+            Validator::Toggle => TOGGLE_CALLS.fetch_add(1, Ordering::SeqCst) % 2 == 0,
         };
         log(EvKind::Validate { prev: *prev, curr: *curr, ok });
         ok
@@ -859,6 +863,7 @@ pub fn build(cfg: &Cfg) -> Result<Box<dyn Api>, String> {
         return build_typed(cfg, ty, cb);
     }
     MASK_CONFLICT.store(false, Ordering::SeqCst);
+    TOGGLE_CALLS.store(0, Ordering::SeqCst);
     LOCAL_EXEC.store(cfg.flavor == Flavor::AsyncLocal, Ordering::SeqCst);
     stretto_sim_rt::local::reset();
     // The builder is driven along one of four recipes (constructor and order of the setters):
